@@ -7,6 +7,7 @@ use itertools::Itertools;
 use syntect::easy::HighlightLines;
 use syntect::highlighting::Style as SyntectStyle;
 use syntect::parsing::{SyntaxReference, SyntaxSet};
+use unicode_segmentation::UnicodeSegmentation;
 
 use crate::config::{self, delta_unreachable, Config};
 use crate::delta::{DiffType, InMergeConflict, MergeParents, State};
@@ -601,9 +602,23 @@ pub fn prepare(line: &str, prefix_length: usize, config: &config::Config) -> Str
 // Remove initial -/+ characters, expand tabs as spaces, retaining ANSI sequences. Terminate with
 // newline character.
 pub fn prepare_raw_line(raw_line: &str, prefix_length: usize, config: &config::Config) -> String {
-    let mut line = tabs::expand(raw_line, &config.tab_cfg);
+    // As in `prepare`: the prefix is removed first (a tab among the prefix columns of a combined
+    // diff is not text to be expanded), and it is counted in characters, not bytes.
+    let text = ansi::strip_ansi_codes(raw_line);
+    let prefix_bytes = if text.len() >= prefix_length && text.as_bytes()[..prefix_length].is_ascii() {
+        prefix_length
+    } else {
+        text.graphemes(true)
+            .take(prefix_length)
+            .map(|g| g.len())
+            .sum()
+    };
+    let mut line = tabs::expand(
+        &ansi::ansi_preserving_slice(raw_line, prefix_bytes),
+        &config.tab_cfg,
+    );
     line.push('\n');
-    ansi::ansi_preserving_slice(&line, prefix_length)
+    line
 }
 
 pub fn paint_minus_and_plus_lines(
